@@ -178,6 +178,9 @@ def gen_C01(rng, tier, cfg):
             ops.append(seek_op(rng, slot, lim - k))
             ops.append("chacha applypat %d %d %d" % (slot, k, rng.below(1000)))
             stats["after_refused_request"] = stats.get("after_refused_request", 0) + 1
+    # positions that alias each other under narrowing, visited one after the other on one instance (see alias_seek_block)
+    for v in VARIANTS:
+        ops += alias_seek_block(rng, v, stats)
     return ops, stats
 
 
@@ -285,6 +288,31 @@ def cast_seek_block(rng, v, stats, every=1):
     return ops
 
 
+def alias_seek_block(rng, v, stats):
+    """seeks between positions that ALIAS each other under narrowing (rule 20 applied to a PAIR of positions): after a
+    partly consumed block (or wide batch) at position q, seek to q' = q +- A + d with A = 2^32, 2^38 (= 2^32 blocks),
+    2^44, 3*2^38 and d a few bytes ahead / behind within the block, in both directions, then read.  A "same block, keep
+    the buffer" shortcut that compares a truncated block index is right for every other pair of positions."""
+    lim = limit(v)
+    cap = min(lim, 2**64 - 1)
+    ops = ["chacha new 0 %s %s %s" % (v, hx(struct_bytes(rng, 32)), hx(struct_bytes(rng, NONCE[v])))]
+    for A in (2**32, 2**38, 2**44, 3 * 2**38):
+        for base, n in ((0, 10), (64 * 5 + 3, 40), (256 * 7, 70), (64 * 9 + 50, 300)):
+            for lowfirst in (False, True):
+                for d in (0, 10, -5, 64):
+                    q = base + (0 if lowfirst else A)
+                    q2 = q + n + d + (A if lowfirst else -A)
+                    if not (0 <= q and q + n <= cap and 0 <= q2 and q2 + 200 <= cap):
+                        continue
+                    ops.append(seek_op(rng, 0, q))
+                    ops.append("chacha applypat 0 %d 6" % n)
+                    ops.append(seek_op(rng, 0, q2))
+                    ops.append("chacha pos 0 u128")
+                    ops.append("chacha applypat 0 200 8")
+                    stats["alias_seeks"] = stats.get("alias_seeks", 0) + 1
+    return ops
+
+
 def gen_C02(rng, tier, cfg):
     backends = backends_for(cfg, tier)
     ops, stats = [], {}
@@ -318,6 +346,7 @@ def gen_C02(rng, tier, cfg):
                     ops.append("chacha applypat 0 %d 3" % rng.choice([1, 64, 65]))
                     stats["special_from_buffered"] = stats.get("special_from_buffered", 0) + 1
             ops += cast_seek_block(rng, v, stats, 1 if tier != "quick" else 2)
+            ops += alias_seek_block(rng, v, stats)
             # one very long request in a single call (2^24 bytes; thorough: also > 2^32 bytes), from a
             # mid-block position; both ends of the output and the position afterwards are compared
             ops.append("chacha new 0 %s %s %s" % (v, hx(struct_bytes(rng, 32)), hx(struct_bytes(rng, NONCE[v]))))
